@@ -11,6 +11,7 @@ import (
 	"math"
 	"reflect"
 	"strconv"
+	"strings"
 	"sync"
 
 	"verifharness/internal/ev"
@@ -31,7 +32,12 @@ type plan struct {
 	auto  bool
 	typ   *typeSpec
 	send  *sendSpec
+	lazy  bool   // server: DisablePreParseMultipartForm
+	strm  bool   // server: StreamRequestBody
+	pre   string // handler: something touches the body before the judged bind
 }
+
+func (pl plan) cfg() srvCfg { return srvCfg{split: pl.split, lazy: pl.lazy, stream: pl.strm} }
 
 func familyFor(src source) []*typeSpec {
 	switch src {
@@ -51,6 +57,15 @@ func genPlan(r *gen.Rand) plan {
 	p.op = opFor(p.src)
 	if p.src != sQuery && p.src != sHeader && p.src != sCookie && r.Chance(1, 4) {
 		p.op = "body" // Bind().Body(): selection by content type
+	}
+	// server-side dimensions that change when and how the body is parsed
+	p.lazy = r.Chance(1, 3)
+	p.strm = r.Chance(1, 4)
+	if p.src != sQuery && p.src != sHeader && p.src != sCookie && r.Chance(1, 4) {
+		p.pre = "body-first"
+		if p.src == sMultipart && r.Bool() {
+			p.pre = "multipartform-first"
+		}
 	}
 	fam := familyFor(p.src)
 	// half of the cases use the one-field types (one per kind / slice kind)
@@ -72,9 +87,18 @@ type engine struct {
 // judge runs one round trip and reports a violation if the law does not hold.
 func (en *engine) judge(c *ev.Case, clause string, pl plan, val reflect.Value) string {
 	e := en.e
-	p := &probe{src: pl.src, op: pl.op, auto: pl.auto, typ: pl.typ, want: val, send: pl.send}
-	o := en.g.get(pl.split).roundTrip(p)
+	p := &probe{src: pl.src, op: pl.op, auto: pl.auto, typ: pl.typ, want: val, send: pl.send, pre: pl.pre}
+	o := en.g.getCfg(pl.cfg()).roundTrip(p)
 	e.Eval(1)
+	if pl.lazy {
+		e.Stat("server_lazy_multipart_"+sourceName[pl.src], 1)
+	}
+	if pl.strm {
+		e.Stat("server_stream_body", 1)
+	}
+	if pl.pre != "" {
+		e.Stat("handler_"+pl.pre, 1)
+	}
 	e.Stat("trips_"+sourceName[pl.src], 1)
 	if pl.send != nil && pl.src.isText() {
 		e.Stat("sent_with_"+sendName[pl.send.mode], 1)
@@ -96,13 +120,86 @@ func (en *engine) judge(c *ev.Case, clause string, pl plan, val reflect.Value) s
 		}
 		return ""
 	}
-	en.report(c, clause, p, o, pl.split)
+	en.reportCfg(c, clause, p, o, pl.cfg())
 	return m
 }
 
 func (en *engine) report(c *ev.Case, clause string, p *probe, o *outcome, split bool) {
+	en.reportCfg(c, clause, p, o, srvCfg{split: split})
+}
+
+// rerun repeats a probe's round trip with another server configuration / handler prelude.
+func (en *engine) rerun(p *probe, cfg srvCfg, pre string) (*probe, *outcome) {
+	p2 := &probe{src: p.src, op: p.op, auto: p.auto, typ: p.typ, want: p.want, send: p.send, pre: pre}
+	return p2, en.g.getCfg(cfg).roundTrip(p2)
+}
+
+func (en *engine) reportCfg(c *ev.Case, clause string, p *probe, o *outcome, cfg srvCfg) {
 	e := en.e
+	split := cfg.split
 	m := o.manner()
+	if m != "panic" && (!cfg.plain() || p.pre != "") {
+		// Does it take this server configuration / this handler prelude? The same request against the
+		// default configuration with a handler that only binds:
+		p0, o0 := en.rerun(p, srvCfg{split: split}, "")
+		if o0.manner() == "" {
+			var needs []string
+			if cfg.lazy {
+				if _, ox := en.rerun(p, srvCfg{split: split, lazy: true}, ""); ox.manner() != "" {
+					needs = []string{"DisablePreParseMultipartForm"}
+				}
+			}
+			if len(needs) == 0 && cfg.stream {
+				if _, ox := en.rerun(p, srvCfg{split: split, stream: true}, ""); ox.manner() != "" {
+					needs = []string{"StreamRequestBody"}
+				}
+			}
+			if len(needs) == 0 && p.pre != "" {
+				if _, ox := en.rerun(p, srvCfg{split: split}, p.pre); ox.manner() != "" {
+					needs = []string{"handler-" + p.pre}
+				}
+			}
+			if len(needs) == 0 {
+				if cfg.lazy {
+					needs = append(needs, "DisablePreParseMultipartForm")
+				}
+				if cfg.stream {
+					needs = append(needs, "StreamRequestBody")
+				}
+				if p.pre != "" {
+					needs = append(needs, "handler-"+p.pre)
+				}
+			}
+			site := sourceName[p.src]
+			if p.op == "body" {
+				if _, ox := en.rerun(p, cfg, p.pre); ox.manner() != "" {
+					px := &probe{src: p.src, op: opFor(p.src), auto: p.auto, typ: p.typ, want: p.want, send: p.send, pre: p.pre}
+					if o1 := en.g.getCfg(cfg).roundTrip(px); o1.manner() == "" {
+						site += "+via-Body"
+					}
+				}
+			}
+			det := map[string]any{"source": sourceName[p.src], "binder": p.op, "type": p.typ.ID, "EnableSplittingOnParsers": split,
+				"DisablePreParseMultipartForm": cfg.lazy, "StreamRequestBody": cfg.stream, "handler_before_bind": p.pre,
+				"sent": renderStruct(p.typ, p.want), "status": o.status, "note": "the same request binds correctly on a default-configured server with a handler that only binds"}
+			if p.diff != nil {
+				det["first_difference_at"] = p.diff.Path
+				det["got"] = p.got
+			}
+			if p.hasErr {
+				det["bind_error"] = p.bindErr
+			}
+			cls := map[string]string{"len-more": "extra-values", "len-fewer": "missing-values", "value": "changed-values"}[m]
+			if cls == "" {
+				cls = m
+			}
+			e.Violation(c, clause+"|"+site+"|needs:"+strings.Join(needs, "+")+"|"+cls,
+				fmt.Sprintf("client -> %s -> Bind().%s fails (%s) only with %s", sourceName[p.src], opTitle(p.op), m, strings.Join(needs, ", ")), det)
+			return
+		}
+		p, o = p0, o0 // the configuration is not what matters
+		m = o.manner()
+	}
 	if m == "panic" {
 		e.Violation(c, panicSig(p), "Bind()."+opTitle(p.op)+" panicked on a value sent by the bundled client: "+p.panicVal,
 			map[string]any{"source": sourceName[p.src], "sent": renderStruct(p.typ, p.want), "stack": trim(p.stack, 2500)})
@@ -248,7 +345,7 @@ func run(e *ev.Env) {
 	en.modeSeq()
 	en.afterFail() // last: see followup.go
 
-	e.Stat("trips_total", en.g.r[0].trips+en.g.r[1].trips)
+	e.Stat("trips_total", en.g.trips())
 }
 
 // ---------------------------------------------------------------------------------------------
@@ -336,6 +433,27 @@ func (en *engine) corpus() {
 			en.e.Nontrivial("corpus", cc.name)
 		})
 	}
+	// server-side body handling: lazy multipart parsing / streaming, both entry points, a handler
+	// that touches the body before the judged bind
+	for _, src := range []source{sMultipart, sForm, sJSON} {
+		for _, op := range []string{"body", opFor(src)} {
+			for _, pre := range []string{"", "body-first", "multipartform-first"} {
+				if pre == "multipartform-first" && src != sMultipart {
+					continue
+				}
+				src, op, pre := src, op, pre
+				en.e.Corpus("server-"+sourceName[src]+"-via-"+op+"-"+map[string]string{"": "plain", "body-first": "body-first", "multipartform-first": "multipartform-first"}[pre], func(c *ev.Case) {
+					t := singleType(kString, true, false)
+					for _, cfg := range []srvCfg{{lazy: true}, {stream: true}, {lazy: true, stream: true}} {
+						v := reflect.New(t.RT).Elem()
+						v.FieldByName(t.Fields[0].Name).Set(reflect.ValueOf([]string{"x y", "\u00e9"}))
+						en.judge(c, "roundtrip", plan{src: src, op: op, auto: true, typ: t, lazy: cfg.lazy, strm: cfg.stream, pre: pre}, v)
+					}
+					en.e.Nontrivial("corpus", c.ID)
+				})
+			}
+		}
+	}
 	en.e.Corpus("float-specials-text", func(c *ev.Case) {
 		for _, src := range []source{sQuery, sForm, sMultipart, sHeader, sCookie, sXML, sCBOR} {
 			for _, k := range []kind{kFloat32, kFloat64} {
@@ -404,8 +522,8 @@ func runRace(e *ev.Env) {
 					budget := d.budget / 4
 					val := genStruct(r, d, pl.typ, &budget)
 					pl.send = genSend(r, pl.src, pl.typ, val)
-					p := &probe{src: pl.src, op: pl.op, auto: pl.auto, typ: pl.typ, want: val, send: pl.send}
-					o := rg[g].get(pl.split).roundTrip(p)
+					p := &probe{src: pl.src, op: pl.op, auto: pl.auto, typ: pl.typ, want: val, send: pl.send, pre: pl.pre}
+					o := rg[g].getCfg(pl.cfg()).roundTrip(p)
 					trips[g]++
 					if pl.send != nil && pl.send.mode == sendClientThenReq {
 						continue // observed only (see judge)
